@@ -3,7 +3,7 @@ import LdarModel.Driver.Proto
 /-
 Driver for the estimation-window model (exact arithmetic, `exactRounding`).
   table <mode 0=site|1=comp> <p> <q> <S> <E> [[site,eqg,comp,date,rate],...]     (eqg/comp -1 = None)
-    -> site,eqg,comp:[[start,stop,date,rate,volNum],...]|...      groups in order of first occurrence
+    -> site,eqg,comp:[[start,stop,date,rate,volNum,prevCond,nextCond],...]|...   groups in order of first occurrence
        ("none" when there is no group)
   offs <p> <q> <g0> <g1>
     -> for every gap g0..g1 eight integers, space separated:
@@ -27,11 +27,12 @@ def parseRec (s : String) : Option Rec := do
     else some { site := st.toNat, eqg := optId e, comp := optId c, date := d, rate := r }
   | _ => none
 
-def showWin (w : Win) : String :=
-  s!"[{w.start},{w.stop},{w.date},{w.rate},{w.volNum}]"
+def showWin (wc : Win × (Bool × Bool)) : String :=
+  let w := wc.1
+  s!"[{w.start},{w.stop},{w.date},{w.rate},{w.volNum},{showBool wc.2.1},{showBool wc.2.2}]"
 
-def showGroup (kw : Key × List Win) : String :=
-  s!"{kw.1.site},{showOptId kw.1.eqg},{showOptId kw.1.comp}:" ++ showList showWin kw.2
+def showGroup (kw : Key × List Win × List (Bool × Bool)) : String :=
+  s!"{kw.1.site},{showOptId kw.1.eqg},{showOptId kw.1.comp}:" ++ showList showWin (kw.2.1.zip kw.2.2)
 
 def gapsOf (g0 g1 : Int) : List Int :=
   if g1 < g0 then [] else (List.range ((g1 - g0).toNat + 1)).map (fun (i : Nat) => g0 + Int.ofNat i)
@@ -50,7 +51,8 @@ def step (_ : Unit) (toks : List String) : Unit × String :=
       else
         let mode := if m = 0 then Mode.site else Mode.comp
         let rep := report mode (exactRounding { p := p, q := q }) s e recs
-        ((), if rep.isEmpty then "none" else "|".intercalate (rep.map showGroup))
+        let repc := rep.map (fun kw => (kw.1, kw.2, groupConds s e (groupInput mode recs kw.1)))
+        ((), if rep.isEmpty then "none" else "|".intercalate (repc.map showGroup))
     | _, _, _, _, _, _ => ((), "bad-op")
   | ["offs", p, q, g0, g1] =>
     match int? p, int? q, int? g0, int? g1 with
